@@ -9,6 +9,8 @@ mod cont;
 mod p01;
 mod p02;
 mod p03;
+mod p12;
+mod p16;
 mod refimpl;
 mod walk;
 
@@ -30,6 +32,8 @@ macro_rules! dispatch {
             "C01" => $f::<p01::C01>($($arg),*),
             "C02" => $f::<p02::C02>($($arg),*),
             "C03" => $f::<p03::C03>($($arg),*),
+            "C12" => $f::<p12::C12>($($arg),*),
+            "C16" => $f::<p16::C16>($($arg),*),
             other => {
                 eprintln!("unknown property {other}");
                 std::process::exit(2);
